@@ -1,7 +1,7 @@
 (* C09 — model counts and support sets are exact. *)
 From Coq Require Import List NArith Bool Sorted. Import ListNotations.
-From BddVerif Require Import Model.Bdd Model.Apply Model.Ops Model.Count Proofs.Sem Proofs.Canon
-  Proofs.CountSem Proofs.CountSupport Proofs.CountFloat Proofs.CountRound.
+From BddVerif Require Import Model.Bdd Model.Apply Model.Ops Model.Count Model.CountFast Proofs.Sem Proofs.Canon
+  Proofs.CountSem Proofs.CountSupport Proofs.CountFloat Proofs.CountRound Proofs.CountFast.
 Open Scope N_scope.
 
 (* `count n f` (Proofs/CountSem.v) = number of valuations of the variables 0..n-1 satisfying f, by structural recursion over the
@@ -102,6 +102,42 @@ Theorem C09_cardinality_finite_range : forall b m, cardinality_f64 b = FFin m ->
 Proof. exact cardinality_finite_range. Qed.
 Print Assumptions C09_cardinality_finite_range.
 
+(* ---- the memoised twins (Model/CountFast.v: per-node cache, each node computed once — the functions the correspondence driver
+   runs) refine the reference recursions above: on every well-formed diagram ... ---- *)
+Theorem C09_fast_count_refines : forall b, wf b -> exact_cardinality_fast b = exact_cardinality b.
+Proof. exact exact_cardinality_fast_eq. Qed.
+Print Assumptions C09_fast_count_refines.
+
+Theorem C09_fast_clause_count_refines : forall b, wf b -> exact_clause_cardinality_fast b = exact_clause_cardinality b.
+Proof. exact exact_clause_cardinality_fast_eq. Qed.
+Print Assumptions C09_fast_clause_count_refines.
+
+Theorem C09_fast_cardinality_f64_refines : forall b, wf b -> cardinality_f64_fast b = cardinality_f64 b.
+Proof. exact cardinality_f64_fast_eq. Qed.
+Print Assumptions C09_fast_cardinality_f64_refines.
+
+(* ... and, guarded by the linear-time checker wfb_fast (= wfb), on ALL inputs, without hypotheses *)
+Theorem C09_wfb_fast_refines : forall b, wfb_fast b = wfb b.
+Proof. exact wfb_fast_eq. Qed.
+Print Assumptions C09_wfb_fast_refines.
+
+Theorem C09_auto_count_refines : forall b, exact_cardinality_auto b = exact_cardinality b.
+Proof. exact exact_cardinality_auto_eq. Qed.
+Print Assumptions C09_auto_count_refines.
+
+Theorem C09_auto_clause_count_refines : forall b, exact_clause_cardinality_auto b = exact_clause_cardinality b.
+Proof. exact exact_clause_cardinality_auto_eq. Qed.
+Print Assumptions C09_auto_clause_count_refines.
+
+Theorem C09_auto_cardinality_f64_refines : forall b, cardinality_f64_auto b = cardinality_f64 b.
+Proof. exact cardinality_f64_auto_eq. Qed.
+Print Assumptions C09_auto_cardinality_f64_refines.
+
+(* so the memoised count is the number of satisfying valuations *)
+Theorem C09_fast_count_spec : forall b, wf b -> exact_cardinality_fast b = count (nvars b) (eval b).
+Proof. exact exact_cardinality_fast_spec. Qed.
+Print Assumptions C09_fast_count_spec.
+
 (* non-trivial instances: (x0 & x2) | (!x0 & x1) over 4 variables; a 2000-variable gap; a non-canonical empty diagram *)
 Definition ex1 : bdd := [mkNode 4 0 0; mkNode 4 1 1; mkNode 2 0 1; mkNode 1 0 1; mkNode 0 3 2].
 Example C09_ex1 : wfb ex1 = true /\ canonicalb ex1 = true /\ exact_cardinality ex1 = 8 /\ exact_clause_cardinality ex1 = 2 /\
@@ -123,3 +159,18 @@ Example C09_ex3 : match mk_disjunctive_clause 60 (repeat (Some true) 60) with
   | _ => False end.
 Proof. vm_compute. repeat split. Qed.
 Print Assumptions C09_ex3.
+
+(* heavy sharing: a conjunction of 24 three-literal clauses over 72 variables has 7^24 models on 3^24 paths; the memoised twins
+   answer at once (the reference recursion would walk every path); the wf hypothesis of the _fast theorems is necessary *)
+Example C09_ex4 :
+  let b := cnf3 24 69 [mkNode 72 0 0; mkNode 72 1 1] 1 in
+  size b = 74 /\ wfb_fast b = true /\ exact_cardinality_fast b = 7 ^ 24 /\ exact_clause_cardinality_fast b = 3 ^ 24 /\
+  cardinality_f64_fast b = FFin 191581231380566409216.
+Proof. exact fast_example. Qed.
+Print Assumptions C09_ex4.
+
+Example C09_ex5 :
+  let b := [mkNode 2 0 0; mkNode 2 1 1; mkNode 0 1 1; mkNode 0 2 2; mkNode 0 3 2] in
+  wfb b = false /\ exact_cardinality b = 4 /\ exact_cardinality_fast b = 12 /\ exact_cardinality_auto b = 4.
+Proof. exact fast_needs_wf. Qed.
+Print Assumptions C09_ex5.
